@@ -32,14 +32,14 @@ for v in ck.violations:
         else:
             v['replayed'] = None
     elif w.get('handler') == 'request_vote':
-        rep = Replay.call({'op': 'raft_request_vote', 'pre': w['pre'], 'rv': w['rv']})
+        rep = Replay.call({'op': 'raft_vote_compacted' if w['pre'].get('base') else 'raft_request_vote', 'pre': w['pre'], 'rv': w['rv']})
         v['native'] = rep
         resp = rep.get('response') or {}
         if v['obligation'] == 'V2_one_vote_per_term':
             v['replayed'] = bool(resp.get('vote_granted')) and bool(rep.get('second_candidate_granted'))
         elif v['obligation'] == 'V3_up_to_date':
             b = rep.get('before', {})
-            v['replayed'] = bool(resp.get('vote_granted')) and (w['rv']['last_log_term'], w['rv']['last_log_index']) < (b.get('last_log_term', 0), b.get('last_log_index', 0))
+            v['replayed'] = bool(resp.get('vote_granted')) and (w['rv']['last_log_term'], rep.get('candidate_last_log_index', w['rv']['last_log_index'])) < (b.get('last_log_term', 0), b.get('last_log_index', 0))
         elif v['obligation'] == 'V1_term_monotone':
             v['replayed'] = rep.get('after', {}).get('term', 0) < rep.get('before', {}).get('term', 0)
         else:
